@@ -137,6 +137,9 @@ func propC09(c *Ctx, r *Report) {
 	r.Clauses = append(r.Clauses, "shadowing hygiene (E7): the scope-entry function that saves a shadowed binding's per-name attributes (constant, var, pointer-let, abstract initialiser ...) also clears each of them for the new binding, so no attribute of an outer declaration leaks onto an inner declaration of the same name")
 	c.runScopeRestore(r, "scope.restore", "wgsl/internal/lower", "Lowerer", "scopeSet", "popScope", map[string]string{"localDecls": "unused-variable warning bookkeeping (declaration spans): read only by the warning pass, never by name resolution"})
 	r.floor("scope.shadowclear", 4)
+	r.Clauses = append(r.Clauses, "sampling offsets (E49): every lowering function that builds ExprImageSample from a call's arguments sets Offset (except the ClampToEdge builtin, which has none)")
+	c.runSampleOffsetKept(r, "sample.offsetkept", "wgsl/internal/lower")
+	r.floor("sample.offsetkept", 3)
 	r.Clauses = append(r.Clauses, emitFlushClause)
 	c.runEmitFlushFirst(r, "emit.flushfirst", "wgsl/internal/lower", emitFlushExceptions)
 	r.floor("emit.flushfirst", 10)
